@@ -26,6 +26,10 @@ def runs(draw, tier):
     t = draw(st.sampled_from(gen.TYPES))
     sc = draw(gen.state_case(types=[t], n=(1, 3), nh=(1, 3), na=(1, 2), scales=[0.05, 0.5, 0.5, 2.0, 2.0, 8.0, 20.0], bound=45.0))
     n = sc["n"]
+    polarised = draw(st.integers(0, 3)) == 0
+    if polarised:
+        sc["am"]["b"] = [draw(st.sampled_from([-1.0, 1.0])) * draw(st.floats(12.0, 25.0, allow_nan=False, width=64)) for _ in range(n)]    # strongly polarised state
+        sc["polarised"] = True
     interesting = draw(st.integers(0, 2)) > 0   # construct (not filter) the class the rule calls non-trivial
     if interesting:
         pbs = draw(st.integers(2, 4))
@@ -41,7 +45,7 @@ def runs(draw, tier):
     for i in range(N):
         b = "Z" * n if (t == "positive" or i == 0) else draw(st.sampled_from(allb))
         rows.append({"basis": b, "u": draw(U01)})
-        if draw(st.integers(0, 11)) == 0:
+        if draw(st.integers(0, 11)) == 0 or (polarised and draw(st.integers(0, 3)) > 0):
             rows[-1]["rare"] = True        # the least likely outcome in that basis (data need not be typical of the model)
     if draw(st.integers(0, 19)) == 0:
         nbs = draw(st.sampled_from([129, 150, 200, 300]))      # many negative-phase chains (drawn with replacement from the data)
